@@ -16,9 +16,10 @@ use common::*;
 
 static mut REC: Option<(u128, char)> = None;
 
-pub(super) fn record_timeout(value: u128, unit: char) -> String {
+// generic in the value type so that the harness keeps compiling if the implementation changes the integer width it formats
+pub(super) fn record_timeout<T: Into<u128>>(value: T, unit: char) -> String {
     unsafe {
-        REC = Some((value, unit));
+        REC = Some((value.into(), unit));
     }
     String::new()
 }
